@@ -51,6 +51,16 @@ void* w_HashMap_remove(void* m, void* item)
   HIter it((Item*)item);
   return ((HM*)m)->remove(it).item;
 }
+void* w_HashMap_removeFront(void* m) { return ((HM*)m)->removeFront().item; } // passes the table's own _begin iterator
+void* w_HashMap_removeBack(void* m) { return ((HM*)m)->removeBack().item; }
+#if defined(NV_POOLMAP)
+void w_HashMap_removeKey(void* m, const long* key) { const unsigned long k = (unsigned long)*key; ((HM*)m)->remove(k); } // remove(const T&), not remove(const V&)
+#else
+void w_HashMap_removeKey(void* m, const long* key) { ((HM*)m)->remove(*key); }
+#endif
+#if defined(NV_POOLMAP)
+void w_PoolMap_removeValue(void* m, void* item) { ((HM*)m)->remove(((Item*)item)->value); } // node computed from the element address
+#endif
 void w_HashMap_swap(void* a, void* b) { ((HM*)a)->swap(*(HM*)b); }
 void* w_HashMap_find(const void* m, const long* key) { return ((const HM*)m)->find(*key).item; }
 
@@ -179,11 +189,19 @@ void h_insert()
 }
 
 // -------------------------------------------------------------- remove(iterator)
+#ifndef NV_RM_MODE
+#define NV_RM_MODE 0 /* 0 remove(iterator), 1 removeFront(), 2 removeBack(), 3 PoolMap::remove(const V&) */
+#endif
 void h_remove()
 {
   NV_INPUT(bool, nextIsEnd); NV_INPUT(bool, hasPrev); NV_INPUT(bool, hasFree); NV_INPUT(bool, inChain); NV_INPUT(bool, hasNextCell);
   NV_INPUT(usize, size0);
   NV_ASSUME(size0 >= 1 && size0 <= NV_MAXSZ);
+#if NV_RM_MODE == 1
+  NV_ASSUME(!hasPrev);
+#elif NV_RM_MODE == 2
+  NV_ASSUME(nextIsEnd);
+#endif
   HM* m = raw_map();
   Item* I = raw_item();
   Item* N = nextIsEnd ? &m->endItem : raw_item();
@@ -200,10 +218,58 @@ void h_remove()
   g_M = m; g_I = I; g_N = N; g_Q = Q; g_F0 = F0; g_NC = NC; g_C = C; g_size0 = size0; g_hasPrev = hasPrev;
   g_begin0 = m->_begin.item; g_data0 = m->data;
   gv_Q = Q; gv_N = N; gv_NC = NC; gv_C = C;
+#if NV_RM_MODE == 1
+  void* r = w_HashMap_removeFront(m);
+#elif NV_RM_MODE == 2
+  void* r = w_HashMap_removeBack(m);
+#elif NV_RM_MODE == 3
+  w_PoolMap_removeValue(m, I); void* r = N; // returns nothing
+#else
   void* r = w_HashMap_remove(m, I);
+#endif
   NV_POST("HashMap::remove: unlinked from bucket chain and order list, successor returned", hm_remove_post(r));
   if(inChain && hasNextCell) { NV_REACH("remove.mid_chain"); }
   if(!inChain && !hasNextCell) { NV_REACH("remove.only_in_bucket"); }
+}
+
+// -------------------------------------------------------------- remove(key): find + remove; absent key changes nothing
+bool hm_removekey_post()
+{
+  HM* m = g_M;
+  if(!g_present)
+    return m->_size == g_size0 && m->freeItem == g_F0 && m->_begin.item == g_begin0 && m->data == g_data0 &&
+           m->data[bucket(g_key)] == g_c1 && m->_end.item == &m->endItem;
+  if(*g_C != g_NC || (g_NC && g_NC->cell != g_C)) return false;
+  if(g_hasPrev ? (g_Q->next != g_N || m->_begin.item != g_begin0) : m->_begin.item != g_N) return false;
+  if(g_N->prev != g_Q) return false;
+  return m->_size == g_size0 - 1 && m->freeItem == g_I && g_I->prev == g_F0 && m->_end.item == &m->endItem && m->data == g_data0;
+}
+void h_remove_key()
+{
+  NV_CHAIN_INPUTS();
+  NV_INPUT(bool, nextIsEnd); NV_INPUT(bool, hasPrev); NV_INPUT(bool, hasFree); NV_INPUT(usize, size0);
+  NV_ASSUME(size0 >= 1 && size0 <= NV_MAXSZ);
+  HM* m = raw_map();
+  build_chain(m, key, chainLen, which, k1, k2);
+  Item* N = nextIsEnd ? &m->endItem : raw_item();
+  Item* Q = hasPrev ? raw_item() : (Item*)0;
+  Item* F0 = hasFree ? raw_item() : (Item*)0;
+  Item* other = raw_item();
+  Item* I = g_hit;
+  m->_begin.item = other;
+  if(I)
+  {
+    I->prev = Q; I->next = N; N->prev = I;
+    if(hasPrev) Q->next = I; else m->_begin.item = I;
+  }
+  m->freeItem = F0; m->_size = size0;
+  g_M = m; g_I = I; g_N = N; g_Q = I ? Q : (Item*)0; g_F0 = F0; g_NC = I ? I->nextCell : (Item*)0; g_C = I ? I->cell : (Item**)0; g_size0 = size0;
+  g_hasPrev = hasPrev; g_key = key; g_begin0 = m->_begin.item; g_data0 = m->data;
+  gv_Q = g_Q; gv_N = N; gv_NC = g_NC; gv_C = g_C; gv_hit = g_hit; gv_data = m->data;
+  w_HashMap_removeKey(m, &key);
+  NV_POST("remove(key): the entry carrying the key is unlinked and recycled; an absent key changes nothing", hm_removekey_post());
+  if(g_present && which == 2) { NV_REACH("remove_key.second_in_chain"); }
+  if(!g_present && chainLen == 2) { NV_REACH("remove_key.absent"); }
 }
 
 // -------------------------------------------------------------- find(key)
